@@ -3,7 +3,7 @@
 
 use crate::refopt::{self, norm2};
 use crate::Out;
-use linfa::traits::{Fit, Predict};
+use linfa::traits::{Fit, Predict, PredictInplace};
 use crate::layout::{expand, lay};
 use linfa::DatasetBase;
 use linfa_logistic::LogisticRegression;
@@ -42,19 +42,32 @@ pub struct BinCase {
     /// element type of the subject: f64 | f32
     #[serde(default = "crate::f64_name")]
     pub float: String,
+    /// builder history: order in which the five setters (0 alpha, 1 with_intercept, 2 max_iterations,
+    /// 3 gradient_tolerance, 4 initial_params) are called (None = canonical 0..4), whether every field is first
+    /// written with a decoy value, and the constructor (default | new)
+    #[serde(default)]
+    pub setter_order: Option<Vec<u8>>,
+    #[serde(default)]
+    pub decoys: bool,
+    #[serde(default = "crate::default_ctor")]
+    pub ctor: String,
 }
 
 pub const OWN_SCORE_BOUND: f64 = 15.0;
 
 pub fn run(case: &BinCase, viols: &mut Vec<Violation>) -> Out {
-    if case.fit_layout == "standard" && case.query_layout == "standard" {
+    let builder_variant = case.setter_order.is_some() || case.decoys || case.ctor != "default";
+    if case.fit_layout == "standard" && case.query_layout == "standard" && !builder_variant {
         return run_inner(case, viols);
     }
-    // layout case: the standard-layout run of the same case is the baseline; what only the other layout breaks
-    // is reported as `<thing>.layout_dependence`
+    // variant case (other layout / other builder history): the canonical run of the same case is the baseline; what
+    // only the variant breaks is reported as `<thing>.layout_dependence` / `<thing>.params.builder_order_dependence`
     let mut base = case.clone();
     base.fit_layout = "standard".into();
     base.query_layout = "standard".into();
+    base.setter_order = None;
+    base.decoys = false;
+    base.ctor = "default".into();
     let mut bv = Vec::new();
     let bo = run_inner(&base, &mut bv);
     if !bv.is_empty() || bo.ood {
@@ -63,8 +76,19 @@ pub fn run(case: &BinCase, viols: &mut Vec<Violation>) -> Out {
     }
     let mut lv = Vec::new();
     let o = run_inner(case, &mut lv);
-    for v in lv {
-        viols.push(crate::as_layout_dependence(v, &case.fit_layout, &case.query_layout));
+    if builder_variant {
+        let sig = if case.ctor != "default" { "logistic.params.constructor_dependence" } else { "logistic.params.builder_order_dependence" };
+        let cj = serde_json::to_value(crate::Case::Binary(case.clone())).unwrap();
+        if lv.is_empty() && o.fingerprint != bo.fingerprint {
+            viols.push(Violation::new(sig, format!("same logical parameter set, setters called in order {:?} (decoys first: {}, constructor {}): fitted parameters / probabilities are not bit-identical to those of the canonical builder order", case.setter_order, case.decoys, case.ctor), cj.clone()));
+        }
+        for v in lv {
+            viols.push(Violation::new(sig, format!("the canonical builder order passes every check; setters in order {:?} (decoys first: {}, constructor {}): [{}] {}", case.setter_order, case.decoys, case.ctor, v.sig, v.what), cj.clone()));
+        }
+    } else {
+        for v in lv {
+            viols.push(crate::as_layout_dependence(v, &case.fit_layout, &case.query_layout));
+        }
     }
     o
 }
@@ -94,7 +118,7 @@ fn run_inner(case: &BinCase, viols: &mut Vec<Violation>) -> Out {
 
 macro_rules! typed_impl {
     ($name:ident, $F:ty, $is32:expr) => {
-fn $name<C: Ord + Clone + Default + std::fmt::Debug>(case: &BinCase, cls: [C; 2], viols: &mut Vec<Violation>) -> Out {
+fn $name<C: Ord + Clone + Default + std::fmt::Debug + 'static>(case: &BinCase, cls: [C; 2], viols: &mut Vec<Violation>) -> Out {
     let mut out = Out::default();
     let is32: bool = $is32;
     let alpha_s = (case.alpha as $F) as f64;
@@ -137,13 +161,41 @@ fn $name<C: Ord + Clone + Default + std::fmt::Debug>(case: &BinCase, cls: [C; 2]
     let laid = lay(&rows, &case.fit_layout, <$F>::NAN);
     let y: Array1<C> = Array1::from_iter(groups.iter().map(|&g| cls[g as usize].clone()));
     let ds = DatasetBase::new(laid.view(), y);
-    let mut params = LogisticRegression::<$F>::default()
-        .alpha(case.alpha as $F)
-        .with_intercept(case.intercept)
-        .max_iterations(case.max_iter)
-        .gradient_tolerance(case.gtol as $F);
-    if let Some(init) = &case.init {
-        params = params.initial_params(Array1::from(init.iter().map(|&v| v as $F).collect::<Vec<$F>>()));
+    let build = |order: &[u8], decoys: bool, ctor: &str| {
+        let mut p = if ctor == "new" { LogisticRegression::<$F>::new() } else { LogisticRegression::<$F>::default() };
+        let np = d + case.intercept as usize;
+        for pass in 0..2 {
+            if pass == 0 && !decoys {
+                continue;
+            }
+            let decoy = pass == 0;
+            for &s in order {
+                p = match s {
+                    0 => p.alpha(if decoy { 7.5 } else { case.alpha as $F }),
+                    1 => p.with_intercept(if decoy { !case.intercept } else { case.intercept }),
+                    2 => p.max_iterations(if decoy { 3 } else { case.max_iter }),
+                    3 => p.gradient_tolerance(if decoy { 0.5 } else { case.gtol as $F }),
+                    _ => match &case.init {
+                        Some(init) => p.initial_params(if decoy { Array1::from_elem(np, 1.0) } else { Array1::from(init.iter().map(|&v| v as $F).collect::<Vec<$F>>()) }),
+                        None => p,
+                    },
+                };
+            }
+        }
+        p
+    };
+    let canonical: Vec<u8> = vec![0, 1, 2, 3, 4];
+    let params = build(case.setter_order.as_deref().unwrap_or(&canonical), case.decoys, &case.ctor);
+    if case.setter_order.is_some() || case.decoys || case.ctor != "default" {
+        // (a) the parameter set itself must be the one the canonical history produces
+        let reference = build(&canonical, false, "default");
+        if params != reference || format!("{:?}", params) != format!("{:?}", reference) {
+            viols.push(Violation::new(
+                "logistic.params.differ_from_canonical_history",
+                format!("setters in order {:?} (decoys first: {}, constructor {}) give {:?}, the canonical history gives {:?}", case.setter_order, case.decoys, case.ctor, params, reference),
+                cj(),
+            ));
+        }
     }
     let mut model = match guarded(|| params.fit(&ds)) {
         Ok(Ok(m)) => m,
@@ -309,6 +361,7 @@ fn $name<C: Ord + Clone + Default + std::fmt::Debug>(case: &BinCase, cls: [C; 2]
             None => model.clone(),
             Some(t) => model.clone().set_threshold(t as $F),
         };
+        let is_default_thr = thr.is_none();
         let tval = (thr.unwrap_or(0.5) as $F) as f64;
         let res = guarded(|| (m.predict_probabilities(&q), m.predict(&q)));
         let (probs, pred) = match res {
@@ -318,6 +371,68 @@ fn $name<C: Ord + Clone + Default + std::fmt::Debug>(case: &BinCase, cls: [C; 2]
                 return out;
             }
         };
+        if is_default_thr {
+            out.fingerprint = w.iter().chain(std::iter::once(&b)).map(|v| v.to_bits()).chain(probs.iter().map(|&v| (v as f64).to_bits())).collect();
+        }
+        // ---- predict_inplace into caller-owned buffers must overwrite EVERY entry ----
+        {
+            let nq = queries.len();
+            let opposite: Array1<C> = pred.mapv(|c| if c == pos { neg.clone() } else { pos.clone() });
+            let rev_rows: Vec<Vec<$F>> = qrows.iter().rev().cloned().collect();
+            let rev_laid = lay(&rev_rows, "standard", <$F>::NAN);
+            let q2 = rev_laid.view();
+            let r = guarded(|| {
+                let mut a = opposite.clone();
+                m.predict_inplace(&q, &mut a);
+                let mut d0: Array1<C> = Array1::default(nq);
+                m.predict_inplace(&q, &mut d0);
+                let plain2 = m.predict(&q2);
+                let mut reused = a.clone(); // holds the answers of the first batch
+                m.predict_inplace(&q2, &mut reused);
+                (a, d0, plain2, reused)
+            });
+            match r {
+                Err(p) => viols.push(Violation::new("logistic.predict_inplace.panic", format!("predict_inplace into a caller-owned buffer panicked: {}", p), cj())),
+                Ok((a, d0, plain2, reused)) => {
+                    out.tag("predict_inplace_buffer_checks");
+                    for (what, got, want) in [("pre-filled with the opposite class", &a, &pred), ("pre-filled with C::default()", &d0, &pred), ("reused from the previous batch (rows reversed)", &reused, &plain2)] {
+                        if got != want {
+                            let i = (0..nq).find(|&i| got[i] != want[i]).unwrap();
+                            viols.push(Violation::new(
+                                "logistic.predict_inplace.stale_buffer",
+                                format!("predict_inplace into a buffer {} (threshold {}): entry {} is {:?}, predict() gives {:?} (classes pos={:?} neg={:?})", what, tval, i, got[i], want[i], pos, neg),
+                                cj(),
+                            ));
+                            break;
+                        }
+                    }
+                }
+            }
+            // through the composing wrapper (it allocates Array1::default itself)
+            if is_default_thr {
+                let q_owned = q.to_owned();
+                let m2 = model.clone().set_threshold(0.3 as $F);
+                let m_a = m.clone();
+                let r = guarded(|| {
+                    let mtm: linfa::composing::MultiTargetModel<ndarray::Array2<$F>, C> = vec![m_a, m2.clone()].into_iter().collect();
+                    (mtm.predict(&q_owned), m2.predict(&q_owned))
+                });
+                match r {
+                    Err(p) => viols.push(Violation::new("logistic.multi_target_model.panic", format!("MultiTargetModel of two fitted models panicked: {}", p), cj())),
+                    Ok((both, p2)) => {
+                        let ok = both.dim() == (nq, 2) && (0..nq).all(|i| both[(i, 0)] == pred[i] && both[(i, 1)] == p2[i]);
+                        if !ok {
+                            let i = (0..nq).find(|&i| both.dim() != (nq, 2) || both[(i, 0)] != pred[i] || both[(i, 1)] != p2[i]).unwrap_or(0);
+                            viols.push(Violation::new(
+                                "logistic.multi_target_model.wrong_labels",
+                                format!("MultiTargetModel[model, model.set_threshold(0.3)].predict: row {} is {:?}, the single models predict {:?} / {:?} (classes pos={:?} neg={:?})", i, both.row(i.min(both.nrows().saturating_sub(1))).to_vec(), pred[i], p2[i], pos, neg),
+                                cj(),
+                            ));
+                        }
+                    }
+                }
+            }
+        }
         for (i, qi) in queries.iter().enumerate() {
             out.queries += 1;
             let p = probs[i] as f64;
